@@ -484,7 +484,7 @@ func canonicalExtKey(key string) string {
 func (u *Unit) sortTotalCheck(call *ast.CallExpr, st *State) {
 	u.sortOrd++
 	ord := u.sortOrd
-	if u.con == nil || u.con.SortCall[ord] != "total" || len(call.Args) != 2 || len(u.inlineStack) > 0 {
+	if u.con == nil || u.con.SortCall[ord] != "total" || len(call.Args) != 2 || len(u.inlineStack) > len(u.spliceDecls) {
 		return
 	}
 	lit, ok := ast.Unparen(call.Args[1]).(*ast.FuncLit)
